@@ -317,7 +317,9 @@ def clause_f(facts, rep):
 
 
 def run(rep, tier):
-    configs = [('K1', False), ('K2', True)] if tier == 'quick' else [('K1', False), ('K2', True), ('K3', False), ('K4', False)]
+    # K4 (dynamic dispatch) is in the quick tier too: it is the only configuration in which both kernels are compiled
+    # in one translation unit, so per-kernel macros (VEC_LEN, VEC_FULL_MASK) can leak from one into the other
+    configs = [('K1', False), ('K2', True), ('K4', False)] if tier == 'quick' else [('K1', False), ('K2', True), ('K3', False), ('K4', False)]
     for cfg, san in configs:
         facts = get_facts(cfg)
         rep.unit(facts)
